@@ -12,8 +12,10 @@
 (*   classImplements / classImplementsFirst / classImplementsOnly          *)
 (*     (also reached through the implementer / implementer_only            *)
 (*     decorators), directlyProvides / alsoProvides / noLongerProvides     *)
-(*     (also through provider), and the queries providedBy(ob),            *)
-(*     implementedBy(cls), I.providedBy(ob), I.implementedBy(cls).         *)
+(*     (also through provider; on instances and on classes taken as        *)
+(*     objects), I.__bases__ = ... (event "rebase"), and the queries       *)
+(*     providedBy(ob), implementedBy(cls), I.providedBy(ob),               *)
+(*     I.implementedBy(cls).                                               *)
 (* The specification carries only the ghost state of Declarations.tla      *)
 (* (what was declared, and what was possibly redundant when declared); an  *)
 (* observed answer must lie in the interval it defines.  Anything the      *)
@@ -82,7 +84,10 @@ ClsUntracked(c) ==
     \/ c \in untrC
     \/ \E k \in DOMAIN BasesOf(c) :
           BasesOf(c)[k] # 0 /\ ClsUntracked(BasesOf(c)[k])
-ObjUntracked(o) == o \in untrO \/ o \notin ObjIds \/ ClsUntracked(ClassOf(o))
+\* (class 0: `object`, or the metaclass `type` of a class taken as an
+\* object - directlyProvides(cls, ...), provider - which implement nothing)
+ObjUntracked(o) == \/ o \in untrO \/ o \notin ObjIds
+                   \/ ClassOf(o) # 0 /\ ClsUntracked(ClassOf(o))
 
 Step(mm) ==
     /\ mismatch' = IF mismatch # <<>> THEN mismatch ELSE mm
@@ -176,6 +181,16 @@ Next ==
               /\ Query(ObjUntracked(e.o) \/ TwinClash(MayObj(e.o)),
                        Within("providedBy", MustObj(e.o), MayObj(e.o),
                               SeqSet(e.res) \cup {Root}))
+         [] e.op = "directlyProvidedBy" ->
+              \* what was declared on the object itself, less what its
+              \* class implements (elided as redundant; MC_Declarations.Obs)
+              /\ UNCHANGED <<gMust, gMay, gInh, oMust, oMay, untrC, untrO>>
+              /\ Query(ObjUntracked(e.o) \/ TwinClash(MayObj(e.o)),
+                       Within("directlyProvidedBy",
+                              (Closure(oMust[e.o]) \
+                                  MayCls(ClassOf(e.o))) \cup {Root},
+                              Closure(oMay[e.o]),
+                              SeqSet(e.res) \cup {Root}))
          [] e.op = "implementedBy" ->
               /\ UNCHANGED <<gMust, gMay, gInh, oMust, oMay, untrC, untrO>>
               /\ Query(ClsUntracked(e.c) \/ TwinClash(MayCls(e.c)),
@@ -208,7 +223,8 @@ Init == /\ tid \in DOMAIN Traces
         /\ oMust = [o \in ObjIds |-> {}]
         /\ oMay = [o \in ObjIds |-> {}]
         /\ untrC = {T.untracked[i] : i \in DOMAIN T.untracked}
-        /\ untrO = {}
+        /\ untrO = IF "untrackedO" \in DOMAIN T
+                  THEN {T.untrackedO[i] : i \in DOMAIN T.untrackedO} ELSE {}
         /\ ianc = AncTable(T.ianc, <<>>)
         /\ nj = 0
         /\ mismatch = <<>>
